@@ -18,6 +18,9 @@ Definition show (r : res (list (string * pspec float nat))) (tab : list (list fl
 """
 
 
+ZERO_OK = {("WeibullDistribution", "gamma"), ("NormalDistribution", "mu"), ("LogNormalDistribution", "mu"), ("VonMisesDistribution", "mu")}
+
+
 def dep_shapes(rng, base):
     k = rng.randrange(4)
     a, b, c = base, rng.uniform(0.02, 0.3), rng.uniform(0.5, 1.5)
@@ -56,6 +59,9 @@ def build_case(rng):
     th = D.rand_params(rng, cname)
     nfix = rng.randrange(0, len(ps))
     fixed = {p: th[p] for p in rng.sample(ps, nfix)}
+    for p in fixed:   # boundary: a parameter fixed at exactly 0 where that is admissible
+        if (cname, p) in ZERO_OK and rng.random() < 0.5:
+            fixed[p] = rng.choice([0, 0.0])
     malform = rng.choice([None, None, None, None, "unknown", "both", "neither"])
     return {"cls": cname, "theta": th, "fixed": fixed, "malform": malform, "seed": rng.randrange(10 ** 6),
             "gs": [rng.uniform(0.1, 6) for _ in range(rng.randrange(1, 5))]}
@@ -130,6 +136,27 @@ def oracle(case):
         sb = np.asarray(inst.draw_sample(4, random_state=11)).ravel()
         if sa.shape != sb.shape or not np.array_equal(sa, sb):
             return (dict(sig, clause="template-at-theta", method="draw_sample"), "conditional draw_sample differs from the template with theta(g)")
+    # integer-typed conditioning values (bin indices, whole-number wind speeds) behave like the same floats
+    gi = np.array([1, 2, 5, 3], dtype=int)
+    for m in ("cdf", "pdf", "icdf"):
+        arg = np.array([0.3, 0.5, 0.6, 0.8]) if m == "icdf" else np.asarray(cd.icdf(np.array([0.3, 0.5, 0.6, 0.8]), gi.astype(float)), dtype=float)
+        vi = np.asarray(getattr(cd, m)(arg, gi), dtype=float)
+        vf = np.asarray(getattr(cd, m)(arg, gi.astype(float)), dtype=float)
+        vs = np.array([float(getattr(cd, m)(a, int(g))) for a, g in zip(arg, gi)])
+        if vi.shape != vf.shape or not np.allclose(vi, vf, rtol=1e-14, atol=0, equal_nan=True) or not np.allclose(vi, vs, rtol=1e-14, atol=0, equal_nan=True):
+            return (dict(sig, clause="integer-given", method=m), "%s with an integer-typed given vector %r differs from the same values as floats / one at a time: %r vs %r" % (m, gi.tolist(), vi.tolist(), vf.tolist()))
+    di = np.asarray(cd.draw_sample(1, gi, random_state=3), dtype=float)
+    df = np.asarray(cd.draw_sample(1, gi.astype(float), random_state=3), dtype=float)
+    if di.shape != df.shape or not np.array_equal(di, df):
+        return (dict(sig, clause="integer-given", method="draw_sample"), "draw_sample with an integer-typed given vector differs from the same values as floats")
+    # history: evaluating, changing the caller's array in place, evaluating again uses the NEW values
+    buf = np.array(case["gs"], dtype=float)
+    first = np.asarray(cd.cdf(np.full(len(buf), xs[0]), buf), dtype=float)
+    buf *= 1.5
+    second = np.asarray(cd.cdf(np.full(len(buf), xs[0]), buf), dtype=float)
+    fresh = np.array([float(cd.cdf(xs[0], float(g))) for g in buf])
+    if not np.allclose(second, fresh, rtol=1e-14, atol=0, equal_nan=True):
+        return (dict(sig, clause="history-inplace"), "after changing the given array in place the conditional cdf still uses the old conditioning values")
     # vectorised == pointwise
     xs = np.array(xs)
     for m in ("cdf", "pdf", "icdf"):
@@ -167,6 +194,16 @@ def chained_oracle(rng):
         return ({"cls": "DependenceFunction", "clause": "arity"}, "wrong number of explicit parameters accepted")
     except ValueError:
         pass
+    # history: re-fitting the inner function changes what the outer one returns at the same g
+    g = np.array([1.0, 4.0])
+    before = np.asarray(f_out(g), dtype=float)
+    xfit = np.array([0.0, 1.0, 2.0, 3.0])
+    f_in.fit(xfit, 3.0 + 2.0 * xfit)
+    a1, b1 = f_in.parameters["a"], f_in.parameters["b"]
+    after = np.asarray(f_out(g), dtype=float)
+    want = (a1 + b1 * g) * f_out.parameters["d"] + g
+    if not np.allclose(after, want, rtol=1e-12):
+        return ({"cls": "DependenceFunction", "clause": "chained-refit"}, "after re-fitting the inner dependence function the outer one returns %r at %r, expected %r" % (after.tolist(), g.tolist(), want.tolist()))
     return None
 
 
